@@ -713,3 +713,197 @@ Proof.
     + unfold no_normal. cbn. rewrite ulookup_uremove, ukey_eqb_refl. exact I.
     + intros y Hn. rewrite ulookup_uremove. apply ukey_eqb_false in Hn. now rewrite Hn.
 Qed.
+
+(* ================= a global transaction ================= *)
+From Coq Require Import ZifyN.
+
+Lemma rollback_all_app cfg l1 l2 u :
+  rollback_all cfg (l1 ++ l2) u =
+  let '(u1, s1) := rollback_all cfg l1 u in
+  let '(u2, s2) := rollback_all cfg l2 u1 in (u2, s1 ++ s2).
+Proof.
+  revert u; induction l1 as [|x l1 IH]; intro u; cbn.
+  - destruct (rollback_all cfg l2 u); reflexivity.
+  - rewrite IH. destruct (rollback_all cfg l1 (r_db (rollback_branch cfg None u x))) as [u1 s1].
+    destruct (rollback_all cfg l2 u1); reflexivity.
+Qed.
+
+Lemma phase1_bs_range cfg xid prog : forall b d d1 bs, phase1 cfg xid b prog d = (d1, bs) ->
+  forall y, In y bs -> fst y = xid /\ (b <= snd y)%N.
+Proof.
+  induction prog as [|ss prog IH]; intros b d d1 bs H y Hy; cbn in H.
+  - inversion H; subst. destruct Hy.
+  - destruct (phase1_branch cfg (xid, b) ss d) as [dA ok] eqn:PB.
+    destruct (phase1 cfg xid (N.succ b) prog dA) as [d2 bs'] eqn:P.
+    inversion H; subst; clear H.
+    assert (R : In y bs' -> fst y = xid /\ (b <= snd y)%N).
+    { intro Hin. destruct (IH _ _ _ _ P y Hin) as [E L]. split; [assumption | lia]. }
+    destruct ok; [|auto]. destruct Hy as [<-|Hy]; [cbn; split; [reflexivity | lia] | auto].
+Qed.
+
+Lemma phase1_other cfg xid prog : forall b d d1 bs, phase1 cfg xid b prog d = (d1, bs) ->
+  forall y, (fst y <> xid \/ (snd y < b)%N) -> ulookup y (d_undo d1) = ulookup y (d_undo d).
+Proof.
+  induction prog as [|ss prog IH]; intros b d d1 bs H y Hy; cbn in H.
+  - inversion H; subst. reflexivity.
+  - destruct (phase1_branch cfg (xid, b) ss d) as [dA ok] eqn:PB.
+    destruct (phase1 cfg xid (N.succ b) prog dA) as [d2 bs'] eqn:P.
+    inversion H; subst; clear H.
+    rewrite (IH _ _ _ _ P y) by (destruct Hy; [now left | right; lia]).
+    eapply phase1_branch_other; [eassumption|].
+    intro E. subst y. cbn in Hy. destruct Hy; [congruence | lia].
+Qed.
+
+Definition inS (L : list (tablename * key)) : tablename -> key -> Prop := fun tn k => In (tn, k) L.
+
+Lemma phase1_rollback cfg xid prog : forall b d0 d1 bs,
+  db_wf (d_tabs d0) -> (forall b', (b <= b')%N -> ulookup (xid, b') (d_undo d0) = None) ->
+  phase1 cfg xid b prog d0 = (d1, bs) ->
+  forall (S : tablename -> key -> Prop) (u : dbs),
+    (forall x, In x bs -> forall tn k, branch_touched d1 x tn k -> S tn k) ->
+    dagree S (d_tabs u) (d_tabs d1) ->
+    (forall x, In x bs -> ulookup x (d_undo u) = ulookup x (d_undo d1)) ->
+    exists u' sts, rollback_all cfg (rev bs) u = (u', sts) /\ Forall (eq status_ok) sts /\
+      dagree S (d_tabs u') (d_tabs d0) /\
+      (forall tn k, ~ S tn k -> lookup k (db_get tn (d_tabs u')) = lookup k (db_get tn (d_tabs u))) /\
+      (forall x, In x bs -> no_normal x u') /\
+      (forall y, ~ In y bs -> ulookup y (d_undo u') = ulookup y (d_undo u)).
+Proof.
+  induction prog as [|ss prog IH]; intros b d0 d1 bs W Fr H S u Cov A UL; cbn in H.
+  - inversion H; subst. exists u, []. cbn. repeat split; auto. intros x [].
+  - destruct (phase1_branch cfg (xid, b) ss d0) as [dA ok] eqn:PB.
+    destruct (phase1 cfg xid (N.succ b) prog dA) as [d2 bs'] eqn:P.
+    inversion H; subst d2; clear H.
+    assert (WA : db_wf (d_tabs dA)) by (eapply phase1_branch_wf; eassumption).
+    assert (FrA : forall b', (N.succ b <= b')%N -> ulookup (xid, b') (d_undo dA) = None).
+    { intros b' Hb. rewrite (phase1_branch_other _ _ _ _ _ _ (xid, b') PB).
+      - apply Fr. lia.
+      - intro E. inversion E. lia. }
+    assert (Sub : forall x, In x bs' -> In x bs) by (intros x Hx; subst bs; destruct ok; [now right | assumption]).
+    destruct (IH _ _ _ _ WA FrA P S u) as [u1 [s1 [R1 [F1 [A1 [O1 [N1 U1]]]]]]].
+    { intros x Hx. apply Cov, Sub, Hx. }
+    { exact A. }
+    { intros x Hx. apply UL, Sub, Hx. }
+    assert (Xout : ~ In (xid, b) bs').
+    { intro Hin. destruct (phase1_bs_range _ _ _ _ _ _ _ P _ Hin) as [_ L]. cbn in L. lia. }
+    destruct ok.
+    + subst bs. cbn [rev]. rewrite rollback_all_app, R1. cbn [rollback_all].
+      set (x := (xid, b)) in *.
+      assert (Xrow : ulookup x (d_undo d1) = ulookup x (d_undo dA)).
+      { apply (phase1_other _ _ _ _ _ _ _ P x). right. cbn. lia. }
+      destruct (branch_roundtrip cfg x ss d0 dA W (Fr b (N.le_refl b)) PB S u1) as [E1 [A2 [O2 [N2 U2]]]].
+      { intros tn k T. apply (Cov x (or_introl eq_refl)). unfold branch_touched in *. now rewrite Xrow. }
+      { exact A1. }
+      { rewrite (U1 x Xout), (UL x (or_introl eq_refl)). exact Xrow. }
+      set (r := rollback_branch cfg None u1 x) in *.
+      exists (r_db r), (s1 ++ [r_out r]). split; [reflexivity|].
+      split; [apply Forall_app; split; [assumption | constructor; [now rewrite E1 | constructor]]|].
+      split; [exact A2|]. split; [|split].
+      * intros tn k NS. rewrite (O2 _ _ NS). apply O1, NS.
+      * intros y [<-|Hy]; [exact N2|].
+        assert (Hn : y <> x) by (intro E; subst y; contradiction).
+        unfold no_normal. rewrite (U2 y Hn). apply N1, Hy.
+      * intros y Hy.
+        assert (Hn : y <> x) by (intro E; subst y; apply Hy; now left).
+        rewrite (U2 y Hn). apply U1. intro Hin. apply Hy. now right.
+    + subst bs. apply phase1_branch_failed in PB. subst dA.
+      exists u1, s1. repeat split; auto.
+Qed.
+
+Lemma phase1_frame cfg xid prog : forall b d0 d1 bs,
+  (forall b', (b <= b')%N -> ulookup (xid, b') (d_undo d0) = None) ->
+  phase1 cfg xid b prog d0 = (d1, bs) ->
+  forall tn k, (forall x, In x bs -> ~ branch_touched d1 x tn k) ->
+  lookup k (db_get tn (d_tabs d1)) = lookup k (db_get tn (d_tabs d0)).
+Proof.
+  induction prog as [|ss prog IH]; intros b d0 d1 bs Fr H tn k NT; cbn in H.
+  - inversion H; subst. reflexivity.
+  - destruct (phase1_branch cfg (xid, b) ss d0) as [dA ok] eqn:PB.
+    destruct (phase1 cfg xid (N.succ b) prog dA) as [d2 bs'] eqn:P.
+    inversion H; subst d2; clear H.
+    assert (FrA : forall b', (N.succ b <= b')%N -> ulookup (xid, b') (d_undo dA) = None).
+    { intros b' Hb. rewrite (phase1_branch_other _ _ _ _ _ _ (xid, b') PB).
+      - apply Fr. lia.
+      - intro E. inversion E. lia. }
+    rewrite (IH _ _ _ _ FrA P tn k).
+    2:{ intros x Hx. apply NT. subst bs. destruct ok; [now right | assumption]. }
+    destruct ok.
+    + eapply phase1_branch_frame; [apply (Fr b (N.le_refl b)) | eassumption |].
+      assert (Xrow : ulookup (xid, b) (d_undo d1) = ulookup (xid, b) (d_undo dA)).
+      { apply (phase1_other _ _ _ _ _ _ _ P (xid, b)). right. cbn. lia. }
+      intro T. apply (NT (xid, b)); [subst bs; now left|].
+      unfold branch_touched in *. now rewrite Xrow.
+    + apply phase1_branch_failed in PB. now subst dA.
+Qed.
+
+(* ---- foreign committed writes ---- *)
+Lemma lookup_apply_fwrite_other w d tn k : (fwrite_tn w, fwrite_key w) <> (tn, k) ->
+  lookup k (db_get tn (apply_fwrite w d)) = lookup k (db_get tn d).
+Proof.
+  intro Hn. destruct w as [tn' k' r|tn' k']; cbn in *; rewrite db_get_set;
+    destruct (bytes_eqb tn tn') eqn:E; try reflexivity;
+    apply bytes_eqb_eq in E; subst tn'.
+  - rewrite lookup_insert. keq k k'; [subst; congruence | reflexivity].
+  - rewrite lookup_remove. keq k k'; [subst; congruence | reflexivity].
+Qed.
+
+Lemma lookup_apply_fwrite_cong w d1 d2 tn k :
+  lookup k (db_get tn d1) = lookup k (db_get tn d2) ->
+  lookup k (db_get tn (apply_fwrite w d1)) = lookup k (db_get tn (apply_fwrite w d2)).
+Proof.
+  intro H. destruct w as [tn' k' r|tn' k']; cbn in *; rewrite !db_get_set;
+    destruct (bytes_eqb tn tn') eqn:E; try assumption;
+    apply bytes_eqb_eq in E; subst tn'.
+  - rewrite !lookup_insert. now destruct (key_eqb k k').
+  - rewrite !lookup_remove. now destruct (key_eqb k k').
+Qed.
+
+Lemma lookup_apply_foreign_other ws d tn k :
+  (forall w, In w ws -> (fwrite_tn w, fwrite_key w) <> (tn, k)) ->
+  lookup k (db_get tn (apply_foreign ws d)) = lookup k (db_get tn d).
+Proof.
+  unfold apply_foreign. revert d; induction ws as [|w ws IH]; intros d H; cbn; [reflexivity|].
+  rewrite IH by (intros w' Hw; apply H; now right).
+  apply lookup_apply_fwrite_other, H. now left.
+Qed.
+
+Lemma lookup_apply_foreign_cong ws d1 d2 tn k :
+  lookup k (db_get tn d1) = lookup k (db_get tn d2) ->
+  lookup k (db_get tn (apply_foreign ws d1)) = lookup k (db_get tn (apply_foreign ws d2)).
+Proof.
+  unfold apply_foreign. revert d1 d2; induction ws as [|w ws IH]; intros d1 d2 H; cbn; [assumption|].
+  apply IH. now apply lookup_apply_fwrite_cong.
+Qed.
+
+Definition tnk_eq_dec : forall a b : tablename * key, {a = b} + {a <> b}.
+Proof. decide equality; [apply key_eq_dec | apply bytes_eq_dec]. Defined.
+
+(* C01: all branches of a global transaction rolled back in reverse order, after
+   committed foreign writes that respect the row locks L *)
+Theorem restores cfg xid b prog d0 d1 bs ws (L : list (tablename * key)) :
+  db_wf (d_tabs d0) ->
+  (forall b', (b <= b')%N -> ulookup (xid, b') (d_undo d0) = None) ->
+  phase1 cfg xid b prog d0 = (d1, bs) ->
+  (forall x, In x bs -> forall tn k, branch_touched d1 x tn k -> In (tn, k) L) ->
+  (forall w, In w ws -> ~ In (fwrite_tn w, fwrite_key w) L) ->
+  exists d2 sts,
+    rollback_all cfg (rev bs) (with_tabs d1 (apply_foreign ws (d_tabs d1))) = (d2, sts) /\
+    Forall (eq status_ok) sts /\
+    db_equiv (d_tabs d2) (apply_foreign ws (d_tabs d0)) /\
+    forall x, In x bs -> no_normal x d2.
+Proof.
+  intros W Fr P Cov Frn.
+  assert (NotL : forall tn k, In (tn, k) L -> forall w, In w ws -> (fwrite_tn w, fwrite_key w) <> (tn, k)).
+  { intros tn k HL w Hw E. apply (Frn w Hw). now rewrite E. }
+  destruct (phase1_rollback cfg xid prog b d0 d1 bs W Fr P (inS L)
+              (with_tabs d1 (apply_foreign ws (d_tabs d1)))) as [d2 [sts [R [F [A [O [N _]]]]]]].
+  - exact Cov.
+  - intros tn k HS. cbn. apply lookup_apply_foreign_other. now apply NotL.
+  - intros x Hx. reflexivity.
+  - exists d2, sts. split; [exact R|]. split; [exact F|]. split; [|exact N].
+    intros tn k. destruct (in_dec tnk_eq_dec (tn, k) L) as [HL|HL].
+    + rewrite (A _ _ HL). symmetry. apply lookup_apply_foreign_other. now apply NotL.
+    + rewrite (O _ _ HL). cbn. apply lookup_apply_foreign_cong.
+      eapply phase1_frame; [exact Fr | exact P|].
+      intros x Hx T. apply HL. eapply Cov; eassumption.
+Qed.
